@@ -22,7 +22,7 @@ def errOf (e : Effect) : Err :=
   match e.sub with
   | .strmOpen | .strmClose | .loopStart => .streamIo
   | .loopStop => .streamPoisoned
-  | .lockSet _ | .acqStart | .acqStop | .paramRead => .genApiDevice
+  | .lockSet _ | .acqStart | .acqStop | .paramRead | .gateSet _ => .genApiDevice
   | .ctrlOpen | .ctrlClose | .genapi | .enable | .disable =>
     match e.out with
     | .notOpened => .controlNotOpened
@@ -61,6 +61,7 @@ def expectedSubs (op : Op) (d : Dev) : List Sub :=
   | .stop => if d.loopFlag then stopSeq else []
   | .close => (if d.loopFlag then stopSeq else []) ++ [.ctrlClose, .strmClose]
   | .param => if d.ctxt.isSome && !d.cache.gain then [.paramRead] else []
+  | .gate v => if d.ctxt.isSome then [.gateSet v] else []
 
 /-- The streaming flag matches the number of live loops, and there is at most one. -/
 def FlagTracksLoop (d : Dev) : Prop := d.loops = if d.loopFlag then 1 else 0
